@@ -60,13 +60,25 @@ def _pure_place(n, depth=0):
     if k == "field":
         return _pure_place(n["b"], depth + 1)
     if k == "index":
-        return _pure_place(n["b"], depth + 1) and _pure_place(n["i"], depth + 1)
+        return _pure_place(n["b"], depth + 1) and (_pure_place(n["i"], depth + 1) or _index_arith(n["i"]))
     if k == "ref":
         return _pure_place(n["x"], depth + 1)
     if k == "un" and n.get("op") == "Deref":
         return _pure_place(n["x"], depth + 1)
     if k == "blk" and not n["b"]["stmts"] and n["b"]["tail"] is not None:
         return _pure_place(n["b"]["tail"], depth + 1)
+    return False
+
+
+def _index_arith(n, depth=0):
+    while n is not None and n.get("k") == "blk" and not n["b"]["stmts"] and n["b"]["tail"] is not None:
+        n = n["b"]["tail"]
+    if n is None or depth > 4:
+        return False
+    if n.get("k") in ("local", "lit"):
+        return True
+    if n.get("k") == "bin" and n.get("op") in ("Add", "Sub", "Mul"):
+        return _index_arith(n["l"], depth + 1) and _index_arith(n["r"], depth + 1)
     return False
 
 
@@ -149,6 +161,17 @@ def _expand(call, helper, site):
         else:
             lets.append({"k": "let", "pat": b, "init": copy.deepcopy(a), "els": None, "line": call.get("line")})
     body = _subst(body, mapping)
+    # `(&f)(v)` / `(*f)(v)`: a call through a reference to a callable is a call of the callable
+    for x in _walk(body):
+        if x.get("k") == "call" and str(x.get("callee", "")).startswith("local:") and isinstance(x.get("f"), dict):
+            f0 = x["f"]
+            while f0 is not None and (f0.get("k") == "ref" or (f0.get("k") == "un" and f0.get("op") == "Deref") or
+                                      (f0.get("k") == "blk" and not f0["b"]["stmts"] and f0["b"].get("tail") is not None)):
+                f0 = f0["x"] if f0["k"] != "blk" else f0["b"]["tail"]
+            if f0 is not None and f0 is not x["f"] and f0.get("k") in ("local", "path"):
+                x["f"] = f0
+                if f0.get("k") == "local":
+                    x["callee"] = "local:" + str(f0.get("name"))
     # a function item passed as an argument and called through the parameter: the call now names the function itself
     for x in _walk(body):
         if x.get("k") == "call" and str(x.get("callee", "")).startswith("local:") and isinstance(x.get("f"), dict) and x["f"].get("k") == "path" \
